@@ -14,6 +14,7 @@
   arrived through, and the builder puts the arrival bond first when the text is read back; components
   are started in increasing id order over the atoms not yet visited.
 -/
+import Purr.Lemmas.OrderL
 import Purr.Lemmas.StereoL
 import Purr.Lemmas.BuilderL
 import Purr.Props.C01
@@ -76,6 +77,36 @@ theorem substituent_order_walk (g : Graph) (hw : WellFormed g) (hok : (walk g).2
   obtain ⟨t, g', h1, h2, h3, h4⟩ := substituent_order g hw es ord hr hne'
   obtain ⟨hnd, hcov, _⟩ := renumbering_injective g hw es ord hr
   exact ⟨t, g', ord, by rw [← hev]; exact h1, h2, h3, hnd, hcov, h4⟩
+
+/-- COMPONENTS START AT THE LOWEST-NUMBERED UNVISITED ATOM: for every `root` event of the traversal (labelled with the
+    atom `x` it starts at), the visit order splits as `pre ++ x :: post` where `pre` — what had been visited before —
+    contains every atom with a lower number than `x` and not `x`, and everything visited afterwards has a higher number -/
+theorem components_start_at_lowest_unvisited (g : Graph) (hw : WellFormed g) (es : List (Event × Nat)) (ord : List Nat)
+    (h : walkRecL g = some (es, ord)) :
+    ∀ e ∈ es, ∀ k, e.1 = .root k → ∃ pre post, ord = pre ++ e.2 :: post ∧ e.2 ∉ pre ∧ (∀ z, z < e.2 → z ∈ pre) ∧
+      ∀ y ∈ post, e.2 < y := by
+  obtain ⟨hnd, _, _⟩ := renumbering_injective g hw es ord h
+  unfold walkRecL at h
+  split at h
+  · cases h
+  · simp only [Option.map_eq_some_iff] at h
+    obtain ⟨⟨es0, ord0, pool0⟩, hc, heq⟩ := h
+    simp only [Prod.mk.injEq] at heq
+    obtain ⟨rfl, rfl⟩ := heq
+    intro e he k hk
+    obtain ⟨pre, post, hsplit, hnot, hbelow⟩ :=
+      comps_roots g (recFuel g) (List.range g.length) [] .init es0 ord0 pool0 hc List.pairwise_lt_range
+        (by intro i hi z hz; right; simp only [List.mem_range] at hi ⊢; omega) e he k hk
+    refine ⟨pre, post, hsplit, hnot, hbelow, ?_⟩
+    intro y hy
+    rw [hsplit] at hnd
+    have hnd' := List.nodup_append.mp hnd
+    have hyx : y ≠ e.2 := by
+      intro heq; subst heq
+      exact (List.nodup_cons.mp hnd'.2.1).1 hy
+    have hypre : y ∉ pre := fun hp => hnd'.2.2 y hp y (by simp [hy]) rfl
+    have : ¬ y < e.2 := fun hlt => hypre (hbelow y hlt)
+    omega
 
 /-- a newly reached atom's other bonds are pushed in list order (the stack's top is the first one) -/
 theorem children_in_list_order (sid tid : Nat) (k : AtomKind) (bs : List Bond) :
